@@ -55,7 +55,12 @@ fn make_pad_delivery(cx: &mut Cx, kc: &KeyCase, owner: &SecretKey, counter: u64)
             let v = r.value.clone();
             (r, format!("valid#{counter}"), Some((counter, v)))
         }
-        70..=77 => {
+        70..=72 => {
+            // as created and never signed: counter 0, no payload, no signature
+            let p = Scratchpad::new(owner.public_key(), 0);
+            (gen::pad_record(&p), "never-signed#0".to_string(), None)
+        }
+        73..=77 => {
             let mut raw = gen::RawPad::from_pad(&gen::pad(owner, counter, &data, 0));
             raw.signature = None;
             (gen::pad_record(&raw.to_pad()), format!("unsigned#{counter}"), None)
